@@ -171,3 +171,1753 @@ Theorem C15_matrix_families_ok_bounded :
   mfamilies_ok [(FHeisenberg, 5); (FSlFundRoots, 4); (FSlRootWeyl, 5)]%Z = true.
 Proof. exact matrix_families_ok_bounded. Qed.
 Print Assumptions C15_matrix_families_ok_bounded.
+
+From V Require Import Base Perm PermProofs Matrix Def Families FamiliesOk FamiliesProofs FamiliesProofs2 FamiliesProofs3 FamiliesProofs4 FamiliesProofs5 FamiliesProofsMatrix.
+
+(* burnt_pancake: GENERAL in all parameters of the documented range - generators (closed form), count, names, name, central state, documented action on sequences / matrix structure, inverse-closed flag as documented *)
+Theorem C15_burnt_pancake_documented :
+  forall n : nat,
+         1 <= n ->
+         exists d : pdef,
+           burnt_pancake (BinInt.Z.of_nat n) = Ok d /\
+           p_gens d = List.map (gen_burnt n) (List.seq 1 n) /\
+           p_names d =
+           List.map
+             (fun k : nat =>
+              cat
+                (String.String (Ascii.Ascii false true false false true false true false)
+                   String.EmptyString :: zs (BinInt.Z.of_nat k) :: nil)) 
+             (List.seq 1 n) /\
+           p_name d =
+           cat
+             (String.String (Ascii.Ascii false true false false false true true false)
+                (String.String (Ascii.Ascii true false true false true true true false)
+                   (String.String (Ascii.Ascii false true false false true true true false)
+                      (String.String (Ascii.Ascii false true true true false true true false)
+                         (String.String (Ascii.Ascii false false true false true true true false)
+                            (String.String (Ascii.Ascii true true true true true false true false)
+                               (String.String
+                                  (Ascii.Ascii false false false false true true true false)
+                                  (String.String
+                                     (Ascii.Ascii true false false false false true true false)
+                                     (String.String
+                                        (Ascii.Ascii false true true true false true true false)
+                                        (String.String
+                                           (Ascii.Ascii true true false false false true true false)
+                                           (String.String
+                                              (Ascii.Ascii true false false false false true true
+                                                 false)
+                                              (String.String
+                                                 (Ascii.Ascii true true false true false true true
+                                                    false)
+                                                 (String.String
+                                                    (Ascii.Ascii true false true false false true
+                                                       true false)
+                                                    (String.String
+                                                       (Ascii.Ascii true false true true false true
+                                                          false false) String.EmptyString)))))))))))))
+              :: zs (BinInt.Z.of_nat n) :: nil) /\
+           p_central d = of_nats (List.seq 0 (2 * n)) /\
+           length (p_gens d) = n /\
+           List.Forall (PermN (2 * n)) (p_gens d) /\
+           (forall (A : Type) (dflt : A) (x : list A) (k : nat),
+            length x = 2 * n ->
+            1 <= k <= n ->
+            apply_perm dflt (List.nth (k - 1) (p_gens d) nil) x =
+            List.rev (List.firstn k (List.skipn n x)) ++
+            List.firstn (n - k) (List.skipn k x) ++
+            List.rev (List.firstn k x) ++ List.skipn (n + k) x) /\ closed_flag (p_gens d) = true.
+Proof. exact @burnt_pancake_documented. Qed.
+Print Assumptions C15_burnt_pancake_documented.
+
+(* burnt_pancake: the constructor succeeds EXACTLY on the documented parameter range (and which error otherwise) *)
+Theorem C15_burnt_pancake_range :
+  forall z : BinNums.Z,
+         ((exists d : pdef, burnt_pancake z = Ok d) <-> BinInt.Z.le (BinNums.Zpos BinNums.xH) z) /\
+         (BinInt.Z.lt z (BinNums.Zpos BinNums.xH) -> burnt_pancake z = Err AssertionErr).
+Proof. exact @burnt_pancake_range. Qed.
+Print Assumptions C15_burnt_pancake_range.
+
+(* cubic_pancake: GENERAL in all parameters of the documented range - generators (closed form), count, names, name, central state, documented action on sequences / matrix structure, inverse-closed flag as documented *)
+Theorem C15_cubic_pancake_documented :
+  forall n s : nat,
+         cubic_range (BinInt.Z.of_nat n) (BinInt.Z.of_nat s) ->
+         exists d : pdef,
+           cubic_pancake (BinInt.Z.of_nat n) (BinInt.Z.of_nat s) = Ok d /\
+           p_gens d = List.map (gen_rev_prefix n) (cubic_ks n s) /\
+           p_names d =
+           List.map
+             (fun k : nat =>
+              cat
+                (String.String (Ascii.Ascii false true false false true false true false)
+                   String.EmptyString :: zs (BinInt.Z.of_nat k) :: nil)) 
+             (cubic_ks n s) /\
+           p_name d =
+           cat
+             (String.String (Ascii.Ascii true true false false false true true false)
+                (String.String (Ascii.Ascii true false true false true true true false)
+                   (String.String (Ascii.Ascii false true false false false true true false)
+                      (String.String (Ascii.Ascii true false false true false true true false)
+                         (String.String (Ascii.Ascii true true false false false true true false)
+                            (String.String (Ascii.Ascii true true true true true false true false)
+                               (String.String
+                                  (Ascii.Ascii false false false false true true true false)
+                                  (String.String
+                                     (Ascii.Ascii true false false false false true true false)
+                                     (String.String
+                                        (Ascii.Ascii false true true true false true true false)
+                                        (String.String
+                                           (Ascii.Ascii true true false false false true true false)
+                                           (String.String
+                                              (Ascii.Ascii true false false false false true true
+                                                 false)
+                                              (String.String
+                                                 (Ascii.Ascii true true false true false true true
+                                                    false)
+                                                 (String.String
+                                                    (Ascii.Ascii true false true false false true
+                                                       true false)
+                                                    (String.String
+                                                       (Ascii.Ascii true false true true false true
+                                                          false false) String.EmptyString)))))))))))))
+              :: zs (BinInt.Z.of_nat n)
+                 :: String.String (Ascii.Ascii true false true true false true false false)
+                      String.EmptyString :: zs (BinInt.Z.of_nat s) :: nil) /\
+           p_central d = of_nats (List.seq 0 n) /\
+           length (p_gens d) = 3 /\
+           List.Forall (PermN n) (p_gens d) /\
+           (forall (A : Type) (dflt : A) (x : list A) (i : nat),
+            length x = n ->
+            i < 3 ->
+            List.nth i (cubic_ks n s) 0 <= n /\
+            apply_perm dflt (List.nth i (p_gens d) nil) x =
+            List.rev (List.firstn (List.nth i (cubic_ks n s) 0) x) ++
+            List.skipn (List.nth i (cubic_ks n s) 0) x) /\ closed_flag (p_gens d) = true.
+Proof. exact @cubic_pancake_documented. Qed.
+Print Assumptions C15_cubic_pancake_documented.
+
+(* cubic_pancake: the constructor succeeds EXACTLY on the documented parameter range (and which error otherwise) *)
+Theorem C15_cubic_pancake_range :
+  forall n s : BinNums.Z,
+         ((exists d : pdef, cubic_pancake n s = Ok d) <-> cubic_range n s) /\
+         (~ cubic_range n s -> cubic_pancake n s = Err AssertionErr).
+Proof. exact @cubic_pancake_range. Qed.
+Print Assumptions C15_cubic_pancake_range.
+
+(* generalized_stars: GENERAL in all parameters of the documented range - generators (closed form), count, names, name, central state, documented action on sequences / matrix structure, inverse-closed flag as documented *)
+Theorem C15_generalized_stars_documented :
+  forall n k : nat,
+         3 <= n ->
+         1 <= k < n ->
+         exists d : pdef,
+           generalized_stars (BinInt.Z.of_nat n) (BinInt.Z.of_nat k) = Ok d /\
+           p_name d =
+           cat
+             (String.String (Ascii.Ascii true true true false false true true false)
+                (String.String (Ascii.Ascii true false true false false true true false)
+                   (String.String (Ascii.Ascii false true true true false true true false)
+                      (String.String (Ascii.Ascii true false true false false true true false)
+                         (String.String (Ascii.Ascii false true false false true true true false)
+                            (String.String (Ascii.Ascii true false false false false true true false)
+                               (String.String
+                                  (Ascii.Ascii false false true true false true true false)
+                                  (String.String
+                                     (Ascii.Ascii true false false true false true true false)
+                                     (String.String
+                                        (Ascii.Ascii false true false true true true true false)
+                                        (String.String
+                                           (Ascii.Ascii true false true false false true true false)
+                                           (String.String
+                                              (Ascii.Ascii false false true false false true true
+                                                 false)
+                                              (String.String
+                                                 (Ascii.Ascii true false true true false true false
+                                                    false)
+                                                 (String.String
+                                                    (Ascii.Ascii true true false false true true true
+                                                       false)
+                                                    (String.String
+                                                       (Ascii.Ascii false false true false true true
+                                                          true false)
+                                                       (String.String
+                                                          (Ascii.Ascii true false false false false
+                                                             true true false)
+                                                          (String.String
+                                                             (Ascii.Ascii false true false false true
+                                                                true true false)
+                                                             (String.String
+                                                                (Ascii.Ascii true true false false
+                                                                   true true true false)
+                                                                (String.String
+                                                                   (Ascii.Ascii true false true true
+                                                                      false true false false)
+                                                                   String.EmptyString)))))))))))))))))
+              :: zs (BinInt.Z.of_nat n)
+                 :: String.String (Ascii.Ascii true false true true false true false false)
+                      String.EmptyString :: zs (BinInt.Z.of_nat k) :: nil) /\
+           p_central d = of_nats (List.seq 0 n) /\
+           length (p_gens d) = k * (n - k) /\
+           length (p_names d) = k * (n - k) /\
+           List.Forall (PermN n) (p_gens d) /\
+           (forall p : list nat,
+            List.In p (p_gens d) <-> (exists i j : nat, i < k /\ k <= j < n /\ p = transp n i j)) /\
+           (forall i j : nat,
+            i < k ->
+            k <= j < n ->
+            List.nth (i * (n - k) + (j - k)) (p_gens d) nil = transp n i j /\
+            List.nth (i * (n - k) + (j - k)) (p_names d) String.EmptyString =
+            cat
+              (String.String (Ascii.Ascii true true false false true false true false)
+                 String.EmptyString
+               :: zs (BinInt.Z.of_nat i)
+                  :: String.String (Ascii.Ascii true false true true false true false false)
+                       String.EmptyString :: zs (BinInt.Z.of_nat j) :: nil) /\
+            (forall (A : Type) (dflt : A) (x : list A),
+             length x = n -> apply_perm dflt (transp n i j) x = swap_at dflt x i j)) /\
+           closed_flag (p_gens d) = true.
+Proof. exact @generalized_stars_documented. Qed.
+Print Assumptions C15_generalized_stars_documented.
+
+(* generalized_stars: the constructor succeeds EXACTLY on the documented parameter range (and which error otherwise) *)
+Theorem C15_generalized_stars_range :
+  forall n k : BinNums.Z,
+         ((exists d : pdef, generalized_stars n k = Ok d) <->
+          BinInt.Z.le (BinNums.Zpos (BinNums.xI BinNums.xH)) n /\
+          BinInt.Z.le (BinNums.Zpos BinNums.xH) k /\ BinInt.Z.lt k n) /\
+         (~
+          (BinInt.Z.le (BinNums.Zpos (BinNums.xI BinNums.xH)) n /\
+           BinInt.Z.le (BinNums.Zpos BinNums.xH) k /\ BinInt.Z.lt k n) ->
+          generalized_stars n k = Err AssertionErr).
+Proof. exact @generalized_stars_range. Qed.
+Print Assumptions C15_generalized_stars_range.
+
+(* three_cycles_01i: GENERAL in all parameters of the documented range - generators (closed form), count, names, name, central state, documented action on sequences / matrix structure, inverse-closed flag as documented *)
+Theorem C15_three_cycles_01i_documented :
+  forall (n : nat) (b : bool),
+         3 <= n ->
+         exists d : pdef,
+           three_cycles_01i (BinInt.Z.of_nat n) b = Ok d /\
+           p_gens d = tc01_gens n b /\
+           p_names d = tc01_names n b /\
+           p_name d =
+           (if b
+            then
+             cat
+               (cat
+                  (String.String (Ascii.Ascii false false true false true true true false)
+                     (String.String (Ascii.Ascii false false false true false true true false)
+                        (String.String (Ascii.Ascii false true false false true true true false)
+                           (String.String (Ascii.Ascii true false true false false true true false)
+                              (String.String
+                                 (Ascii.Ascii true false true false false true true false)
+                                 (String.String
+                                    (Ascii.Ascii true true true true true false true false)
+                                    (String.String
+                                       (Ascii.Ascii true true false false false true true false)
+                                       (String.String
+                                          (Ascii.Ascii true false false true true true true false)
+                                          (String.String
+                                             (Ascii.Ascii true true false false false true true false)
+                                             (String.String
+                                                (Ascii.Ascii false false true true false true true
+                                                   false)
+                                                (String.String
+                                                   (Ascii.Ascii true false true false false true true
+                                                      false)
+                                                   (String.String
+                                                      (Ascii.Ascii true true false false true true
+                                                         true false)
+                                                      (String.String
+                                                         (Ascii.Ascii true true true true true false
+                                                            true false)
+                                                         (String.String
+                                                            (Ascii.Ascii false false false false true
+                                                               true false false)
+                                                            (String.String
+                                                               (Ascii.Ascii true false false false
+                                                                  true true false false)
+                                                               (String.String
+                                                                  (Ascii.Ascii true false false true
+                                                                     false true true false)
+                                                                  (String.String
+                                                                     (Ascii.Ascii true false true
+                                                                        true false true false false)
+                                                                     String.EmptyString))))))))))))))))
+                   :: zs (BinInt.Z.of_nat n) :: nil)
+                :: String.String (Ascii.Ascii true false true true false true false false)
+                     (String.String (Ascii.Ascii true false false true false true true false)
+                        (String.String (Ascii.Ascii true true false false false true true false)
+                           String.EmptyString)) :: nil)
+            else
+             cat
+               (String.String (Ascii.Ascii false false true false true true true false)
+                  (String.String (Ascii.Ascii false false false true false true true false)
+                     (String.String (Ascii.Ascii false true false false true true true false)
+                        (String.String (Ascii.Ascii true false true false false true true false)
+                           (String.String (Ascii.Ascii true false true false false true true false)
+                              (String.String (Ascii.Ascii true true true true true false true false)
+                                 (String.String
+                                    (Ascii.Ascii true true false false false true true false)
+                                    (String.String
+                                       (Ascii.Ascii true false false true true true true false)
+                                       (String.String
+                                          (Ascii.Ascii true true false false false true true false)
+                                          (String.String
+                                             (Ascii.Ascii false false true true false true true false)
+                                             (String.String
+                                                (Ascii.Ascii true false true false false true true
+                                                   false)
+                                                (String.String
+                                                   (Ascii.Ascii true true false false true true true
+                                                      false)
+                                                   (String.String
+                                                      (Ascii.Ascii true true true true true false
+                                                         true false)
+                                                      (String.String
+                                                         (Ascii.Ascii false false false false true
+                                                            true false false)
+                                                         (String.String
+                                                            (Ascii.Ascii true false false false true
+                                                               true false false)
+                                                            (String.String
+                                                               (Ascii.Ascii true false false true
+                                                                  false true true false)
+                                                               (String.String
+                                                                  (Ascii.Ascii true false true true
+                                                                     false true false false)
+                                                                  String.EmptyString))))))))))))))))
+                :: zs (BinInt.Z.of_nat n) :: nil)) /\
+           p_central d = of_nats (List.seq 0 n) /\
+           length (p_gens d) = (if b then 2 else 1) * (n - 2) /\
+           length (p_names d) = length (p_gens d) /\
+           List.Forall (PermN n) (p_gens d) /\
+           (forall i : nat,
+            2 <= i < n ->
+            (if b
+             then
+              List.nth (2 * (i - 2)) (p_gens d) nil = cyc3 n 0 1 i /\
+              List.nth (2 * (i - 2) + 1) (p_gens d) nil = cyc3 n 1 0 i /\
+              List.nth (2 * (i - 2)) (p_names d) String.EmptyString =
+              cat
+                (String.String (Ascii.Ascii false false false true false true false false)
+                   (String.String (Ascii.Ascii false false false false true true false false)
+                      (String.String (Ascii.Ascii false false false false false true false false)
+                         (String.String (Ascii.Ascii true false false false true true false false)
+                            (String.String
+                               (Ascii.Ascii false false false false false true false false)
+                               String.EmptyString))))
+                 :: zs (BinInt.Z.of_nat i)
+                    :: String.String (Ascii.Ascii true false false true false true false false)
+                         String.EmptyString :: nil) /\
+              List.nth (2 * (i - 2) + 1) (p_names d) String.EmptyString =
+              cat
+                (String.String (Ascii.Ascii false false false true false true false false)
+                   (String.String (Ascii.Ascii true false false false true true false false)
+                      (String.String (Ascii.Ascii false false false false false true false false)
+                         (String.String (Ascii.Ascii false false false false true true false false)
+                            (String.String
+                               (Ascii.Ascii false false false false false true false false)
+                               String.EmptyString))))
+                 :: zs (BinInt.Z.of_nat i)
+                    :: String.String (Ascii.Ascii true false false true false true false false)
+                         String.EmptyString :: nil)
+             else
+              List.nth (i - 2) (p_gens d) nil = cyc3 n 0 1 i /\
+              List.nth (i - 2) (p_names d) String.EmptyString =
+              cat
+                (String.String (Ascii.Ascii false false false true false true false false)
+                   (String.String (Ascii.Ascii false false false false true true false false)
+                      (String.String (Ascii.Ascii false false false false false true false false)
+                         (String.String (Ascii.Ascii true false false false true true false false)
+                            (String.String
+                               (Ascii.Ascii false false false false false true false false)
+                               String.EmptyString))))
+                 :: zs (BinInt.Z.of_nat i)
+                    :: String.String (Ascii.Ascii true false false true false true false false)
+                         String.EmptyString :: nil)) /\
+            inverse_perm (cyc3 n 0 1 i) = cyc3 n 1 0 i /\
+            (forall (A : Type) (dflt : A) (x : list A),
+             length x = n ->
+             apply_perm dflt (cyc3 n 0 1 i) x = cycle3_at dflt x 0 1 i /\
+             apply_perm dflt (cyc3 n 1 0 i) x = cycle3_at dflt x 1 0 i)) /\
+           closed_flag (p_gens d) = b.
+Proof. exact @three_cycles_01i_documented. Qed.
+Print Assumptions C15_three_cycles_01i_documented.
+
+(* three_cycles_01i: the constructor succeeds EXACTLY on the documented parameter range (and which error otherwise) *)
+Theorem C15_three_cycles_01i_range :
+  forall (n : BinNums.Z) (b : bool),
+         ((exists d : pdef, three_cycles_01i n b = Ok d) <->
+          BinInt.Z.le (BinNums.Zpos (BinNums.xI BinNums.xH)) n) /\
+         (~ BinInt.Z.le (BinNums.Zpos (BinNums.xI BinNums.xH)) n ->
+          three_cycles_01i n b = Err AssertionErr).
+Proof. exact @three_cycles_01i_range. Qed.
+Print Assumptions C15_three_cycles_01i_range.
+
+(* larx: GENERAL in all parameters of the documented range - generators (closed form), count, names, name, central state, documented action on sequences / matrix structure, inverse-closed flag as documented *)
+Theorem C15_larx_documented :
+  forall n : nat,
+         2 <= n ->
+         exists d : pdef,
+           larx (BinInt.Z.of_nat n) = Ok d /\
+           p_gens d = transp n 0 1 :: gen_cycle n 1 (n - 1) :: nil /\
+           p_names d =
+           List.map
+             (fun p : list nat =>
+              cat
+                (String.String (Ascii.Ascii false false false true false true false false)
+                   String.EmptyString
+                 :: join
+                      (String.String (Ascii.Ascii false false false false false true false false)
+                         String.EmptyString) (of_nats p)
+                    :: String.String (Ascii.Ascii true false false true false true false false)
+                         String.EmptyString :: nil)) (p_gens d) /\
+           p_name d =
+           cat
+             (String.String (Ascii.Ascii false false true true false true true false)
+                (String.String (Ascii.Ascii true false false false false true true false)
+                   (String.String (Ascii.Ascii false true false false true true true false)
+                      (String.String (Ascii.Ascii false false false true true true true false)
+                         (String.String (Ascii.Ascii true false true true false true false false)
+                            String.EmptyString)))) :: zs (BinInt.Z.of_nat n) :: nil) /\
+           p_central d = of_nats (List.seq 0 n) /\
+           List.Forall (PermN n) (p_gens d) /\
+           (forall (A : Type) (dflt : A) (x : list A),
+            length x = n ->
+            List.map (fun p : list nat => apply_perm dflt p x) (p_gens d) =
+            swap_at dflt x 0 1 :: rot_segment 1 (n - 1) x :: nil) /\
+           closed_flag (p_gens d) = PeanoNat.Nat.leb n 3.
+Proof. exact @larx_documented. Qed.
+Print Assumptions C15_larx_documented.
+
+(* larx: the constructor succeeds EXACTLY on the documented parameter range (and which error otherwise) *)
+Theorem C15_larx_range :
+  forall n : BinNums.Z,
+         ((exists d : pdef, larx n = Ok d) <-> BinInt.Z.le (BinNums.Zpos (BinNums.xO BinNums.xH)) n) /\
+         (~ BinInt.Z.le (BinNums.Zpos (BinNums.xO BinNums.xH)) n -> larx n = Err AssertionErr).
+Proof. exact @larx_range. Qed.
+Print Assumptions C15_larx_range.
+
+(* lsl_cycles: GENERAL in all parameters of the documented range - generators (closed form), count, names, name, central state, documented action on sequences / matrix structure, inverse-closed flag as documented *)
+Theorem C15_lsl_cycles_documented :
+  forall (n : nat) (b : bool),
+         3 <= n ->
+         exists d : pdef,
+           lsl_cycles (BinInt.Z.of_nat n) b = Ok d /\
+           p_gens d =
+           (gen_cycle n 0 (n - 1) :: gen_cycle n 1 (n - 1) :: nil) ++
+           (if b then gen_cycle_inv n 0 (n - 1) :: gen_cycle_inv n 1 (n - 1) :: nil else nil) /\
+           p_names d =
+           (String.String (Ascii.Ascii false false true true false false true false)
+              String.EmptyString
+            :: String.String (Ascii.Ascii true true false false true false true false)
+                 String.EmptyString :: nil) ++
+           (if b
+            then
+             String.String (Ascii.Ascii false false true true false false true false)
+               (String.String (Ascii.Ascii true true true true true false true false)
+                  (String.String (Ascii.Ascii true false false true false true true false)
+                     (String.String (Ascii.Ascii false true true true false true true false)
+                        (String.String (Ascii.Ascii false true true false true true true false)
+                           String.EmptyString))))
+             :: String.String (Ascii.Ascii true true false false true false true false)
+                  (String.String (Ascii.Ascii true true true true true false true false)
+                     (String.String (Ascii.Ascii true false false true false true true false)
+                        (String.String (Ascii.Ascii false true true true false true true false)
+                           (String.String (Ascii.Ascii false true true false true true true false)
+                              String.EmptyString)))) :: nil
+            else nil) /\
+           p_name d =
+           cat
+             (String.String (Ascii.Ascii false false true true false true true false)
+                (String.String (Ascii.Ascii true true false false true true true false)
+                   (String.String (Ascii.Ascii false false true true false true true false)
+                      (String.String (Ascii.Ascii true true true true true false true false)
+                         (String.String (Ascii.Ascii true true false false false true true false)
+                            (String.String (Ascii.Ascii true false false true true true true false)
+                               (String.String
+                                  (Ascii.Ascii true true false false false true true false)
+                                  (String.String
+                                     (Ascii.Ascii false false true true false true true false)
+                                     (String.String
+                                        (Ascii.Ascii true false true false false true true false)
+                                        (String.String
+                                           (Ascii.Ascii true true false false true true true false)
+                                           (String.String
+                                              (Ascii.Ascii true false true true false true false
+                                                 false) String.EmptyString))))))))))
+              :: zs (BinInt.Z.of_nat n) :: nil) /\
+           p_central d = of_nats (List.seq 0 n) /\
+           length (p_gens d) = (if b then 4 else 2) /\
+           List.Forall (PermN n) (p_gens d) /\
+           inverse_perm (gen_cycle n 0 (n - 1)) = gen_cycle_inv n 0 (n - 1) /\
+           inverse_perm (gen_cycle n 1 (n - 1)) = gen_cycle_inv n 1 (n - 1) /\
+           (forall (A : Type) (dflt : A) (x : list A),
+            length x = n ->
+            List.map (fun p : list nat => apply_perm dflt p x) (p_gens d) =
+            (shift_left x :: rot_segment 1 (n - 1) x :: nil) ++
+            (if b then shift_right x :: rot_segment_right 1 (n - 1) x :: nil else nil)) /\
+           closed_flag (p_gens d) = b.
+Proof. exact @lsl_cycles_documented. Qed.
+Print Assumptions C15_lsl_cycles_documented.
+
+(* lsl_cycles: the constructor succeeds EXACTLY on the documented parameter range (and which error otherwise) *)
+Theorem C15_lsl_cycles_range :
+  forall (n : BinNums.Z) (b : bool),
+         ((exists d : pdef, lsl_cycles n b = Ok d) <->
+          BinInt.Z.le (BinNums.Zpos (BinNums.xI BinNums.xH)) n) /\
+         (~ BinInt.Z.le (BinNums.Zpos (BinNums.xI BinNums.xH)) n -> lsl_cycles n b = Err AssertionErr).
+Proof. exact @lsl_cycles_range. Qed.
+Print Assumptions C15_lsl_cycles_range.
+
+(* three_cycles_0ij: GENERAL in all parameters of the documented range - generators (closed form), count, names, name, central state, documented action on sequences / matrix structure, inverse-closed flag as documented *)
+Theorem C15_three_cycles_0ij_documented :
+  forall n : nat,
+         3 <= n ->
+         exists d : pdef,
+           three_cycles_0ij (BinInt.Z.of_nat n) = Ok d /\
+           p_gens d = List.map (fun ij : nat * nat => cyc3 n 0 (fst ij) (snd ij)) (tc0_pairs n) /\
+           p_names d =
+           List.map
+             (fun ij : nat * nat =>
+              cat
+                (String.String (Ascii.Ascii false false false true false true false false)
+                   String.EmptyString
+                 :: join
+                      (String.String (Ascii.Ascii false false false false false true false false)
+                         String.EmptyString)
+                      (BinNums.Z0 :: BinInt.Z.of_nat (fst ij) :: BinInt.Z.of_nat (snd ij) :: nil)
+                    :: String.String (Ascii.Ascii true false false true false true false false)
+                         String.EmptyString :: nil)) (tc0_pairs n) /\
+           p_name d =
+           cat
+             (String.String (Ascii.Ascii false false true false true true true false)
+                (String.String (Ascii.Ascii false false false true false true true false)
+                   (String.String (Ascii.Ascii false true false false true true true false)
+                      (String.String (Ascii.Ascii true false true false false true true false)
+                         (String.String (Ascii.Ascii true false true false false true true false)
+                            (String.String (Ascii.Ascii true true true true true false true false)
+                               (String.String
+                                  (Ascii.Ascii true true false false false true true false)
+                                  (String.String
+                                     (Ascii.Ascii true false false true true true true false)
+                                     (String.String
+                                        (Ascii.Ascii true true false false false true true false)
+                                        (String.String
+                                           (Ascii.Ascii false false true true false true true false)
+                                           (String.String
+                                              (Ascii.Ascii true false true false false true true
+                                                 false)
+                                              (String.String
+                                                 (Ascii.Ascii true true false false true true true
+                                                    false)
+                                                 (String.String
+                                                    (Ascii.Ascii true true true true true false true
+                                                       false)
+                                                    (String.String
+                                                       (Ascii.Ascii false false false false true true
+                                                          false false)
+                                                       (String.String
+                                                          (Ascii.Ascii true false false true false
+                                                             true true false)
+                                                          (String.String
+                                                             (Ascii.Ascii false true false true false
+                                                                true true false)
+                                                             (String.String
+                                                                (Ascii.Ascii true false true true
+                                                                   false true false false)
+                                                                String.EmptyString))))))))))))))))
+              :: zs (BinInt.Z.of_nat n) :: nil) /\
+           p_central d = of_nats (List.seq 0 n) /\
+           (forall i j : nat, List.In (i, j) (tc0_pairs n) <-> 1 <= i < n /\ 1 <= j < n /\ i <> j) /\
+           length (p_gens d) = (n - 1) * (n - 2) /\
+           length (p_names d) = (n - 1) * (n - 2) /\
+           List.Forall (PermN n) (p_gens d) /\
+           (forall p : list nat,
+            List.In p (p_gens d) <->
+            (exists i j : nat, 1 <= i < n /\ 1 <= j < n /\ i <> j /\ p = cyc3 n 0 i j)) /\
+           (forall i j : nat,
+            1 <= i < n ->
+            1 <= j < n ->
+            i <> j ->
+            inverse_perm (cyc3 n 0 i j) = cyc3 n 0 j i /\
+            (forall (A : Type) (dflt : A) (x : list A),
+             length x = n -> apply_perm dflt (cyc3 n 0 i j) x = cycle3_at dflt x 0 i j)) /\
+           closed_flag (p_gens d) = true.
+Proof. exact @three_cycles_0ij_documented. Qed.
+Print Assumptions C15_three_cycles_0ij_documented.
+
+(* three_cycles_0ij: the constructor succeeds EXACTLY on the documented parameter range (and which error otherwise) *)
+Theorem C15_three_cycles_0ij_range :
+  forall n : BinNums.Z,
+         ((exists d : pdef, three_cycles_0ij n = Ok d) <->
+          BinInt.Z.le (BinNums.Zpos (BinNums.xI BinNums.xH)) n) /\
+         (~ BinInt.Z.le (BinNums.Zpos (BinNums.xI BinNums.xH)) n -> three_cycles_0ij n = Err IndexErr).
+Proof. exact @three_cycles_0ij_range. Qed.
+Print Assumptions C15_three_cycles_0ij_range.
+
+(* three_cycles: GENERAL in all parameters of the documented range - generators (closed form), count, names, name, central state, documented action on sequences / matrix structure, inverse-closed flag as documented *)
+Theorem C15_three_cycles_documented :
+  forall n : nat,
+         3 <= n ->
+         exists d : pdef,
+           three_cycles (BinInt.Z.of_nat n) = Ok d /\
+           p_gens d = List.map (fun '(a, b, c) => cyc3 n a b c) (tc_triples n) /\
+           p_names d =
+           List.map
+             (fun '(a, b, c) =>
+              cat
+                (String.String (Ascii.Ascii false false false true false true false false)
+                   String.EmptyString
+                 :: join
+                      (String.String (Ascii.Ascii false false false false false true false false)
+                         String.EmptyString)
+                      (BinInt.Z.of_nat a :: BinInt.Z.of_nat b :: BinInt.Z.of_nat c :: nil)
+                    :: String.String (Ascii.Ascii true false false true false true false false)
+                         String.EmptyString :: nil)) (tc_triples n) /\
+           p_name d =
+           cat
+             (String.String (Ascii.Ascii false false true false true true true false)
+                (String.String (Ascii.Ascii false false false true false true true false)
+                   (String.String (Ascii.Ascii false true false false true true true false)
+                      (String.String (Ascii.Ascii true false true false false true true false)
+                         (String.String (Ascii.Ascii true false true false false true true false)
+                            (String.String (Ascii.Ascii true true true true true false true false)
+                               (String.String
+                                  (Ascii.Ascii true true false false false true true false)
+                                  (String.String
+                                     (Ascii.Ascii true false false true true true true false)
+                                     (String.String
+                                        (Ascii.Ascii true true false false false true true false)
+                                        (String.String
+                                           (Ascii.Ascii false false true true false true true false)
+                                           (String.String
+                                              (Ascii.Ascii true false true false false true true
+                                                 false)
+                                              (String.String
+                                                 (Ascii.Ascii true true false false true true true
+                                                    false)
+                                                 (String.String
+                                                    (Ascii.Ascii true false true true false true
+                                                       false false) String.EmptyString))))))))))))
+              :: zs (BinInt.Z.of_nat n) :: nil) /\
+           p_central d = of_nats (List.seq 0 n) /\
+           (forall a b c : nat, List.In (a, b, c) (tc_triples n) <-> a < b < n /\ a < c < n /\ b <> c) /\
+           3 * length (p_gens d) = n * (n - 1) * (n - 2) /\
+           length (p_names d) = length (p_gens d) /\
+           List.Forall (PermN n) (p_gens d) /\
+           (forall p : list nat,
+            List.In p (p_gens d) <->
+            (exists a b c : nat, a < b < n /\ a < c < n /\ b <> c /\ p = cyc3 n a b c)) /\
+           (forall a b c : nat,
+            a < b < n ->
+            a < c < n ->
+            b <> c ->
+            inverse_perm (cyc3 n a b c) = cyc3 n a c b /\
+            (forall (A : Type) (dflt : A) (x : list A),
+             length x = n -> apply_perm dflt (cyc3 n a b c) x = cycle3_at dflt x a b c)) /\
+           closed_flag (p_gens d) = true.
+Proof. exact @three_cycles_documented. Qed.
+Print Assumptions C15_three_cycles_documented.
+
+(* three_cycles: the constructor succeeds EXACTLY on the documented parameter range (and which error otherwise) *)
+Theorem C15_three_cycles_range :
+  forall n : BinNums.Z,
+         ((exists d : pdef, three_cycles n = Ok d) <->
+          BinInt.Z.le (BinNums.Zpos (BinNums.xI BinNums.xH)) n) /\
+         (~ BinInt.Z.le (BinNums.Zpos (BinNums.xI BinNums.xH)) n -> three_cycles n = Err AssertionErr).
+Proof. exact @three_cycles_range. Qed.
+Print Assumptions C15_three_cycles_range.
+
+(* wrapped_k_cycles: GENERAL in all parameters of the documented range - generators (closed form), count, names, name, central state, documented action on sequences / matrix structure, inverse-closed flag as documented *)
+Theorem C15_wrapped_k_cycles_documented :
+  forall n k : nat,
+         2 <= k <= n ->
+         exists d : pdef,
+           wrapped_k_cycles (BinInt.Z.of_nat n) (BinInt.Z.of_nat k) = Ok d /\
+           p_gens d = List.map (wk_gen n k) (List.seq 0 n) /\
+           p_names d =
+           List.map
+             (fun s : nat =>
+              cat
+                (String.String (Ascii.Ascii false false false true false true false false)
+                   String.EmptyString
+                 :: join
+                      (String.String (Ascii.Ascii false false false false false true false false)
+                         String.EmptyString) (of_nats (wk_cycle n k s))
+                    :: String.String (Ascii.Ascii true false false true false true false false)
+                         String.EmptyString :: nil)) (List.seq 0 n) /\
+           p_name d =
+           cat
+             (String.String (Ascii.Ascii true true true false true true true false)
+                (String.String (Ascii.Ascii false true false false true true true false)
+                   (String.String (Ascii.Ascii true false false false false true true false)
+                      (String.String (Ascii.Ascii false false false false true true true false)
+                         (String.String (Ascii.Ascii false false false false true true true false)
+                            (String.String (Ascii.Ascii true false true false false true true false)
+                               (String.String
+                                  (Ascii.Ascii false false true false false true true false)
+                                  (String.String
+                                     (Ascii.Ascii true true true true true false true false)
+                                     (String.String
+                                        (Ascii.Ascii true true false true false true true false)
+                                        (String.String
+                                           (Ascii.Ascii true true true true true false true false)
+                                           (String.String
+                                              (Ascii.Ascii true true false false false true true
+                                                 false)
+                                              (String.String
+                                                 (Ascii.Ascii true false false true true true true
+                                                    false)
+                                                 (String.String
+                                                    (Ascii.Ascii true true false false false true
+                                                       true false)
+                                                    (String.String
+                                                       (Ascii.Ascii false false true true false true
+                                                          true false)
+                                                       (String.String
+                                                          (Ascii.Ascii true false true false false
+                                                             true true false)
+                                                          (String.String
+                                                             (Ascii.Ascii true true false false true
+                                                                true true false)
+                                                             (String.String
+                                                                (Ascii.Ascii true false true true
+                                                                   false true false false)
+                                                                String.EmptyString))))))))))))))))
+              :: zs (BinInt.Z.of_nat n)
+                 :: String.String (Ascii.Ascii true false true true false true false false)
+                      String.EmptyString :: zs (BinInt.Z.of_nat k) :: nil) /\
+           p_central d = of_nats (List.seq 0 n) /\
+           length (p_gens d) = n /\
+           length (p_names d) = n /\
+           List.Forall (PermN n) (p_gens d) /\
+           (forall s : nat,
+            s < n ->
+            List.nth s (p_gens d) nil = wk_gen n k s /\
+            (forall j : nat,
+             j < k - 1 ->
+             List.nth (PeanoNat.Nat.modulo (s + j) n) (wk_gen n k s) 0 =
+             PeanoNat.Nat.modulo (s + j + 1) n) /\
+            List.nth (PeanoNat.Nat.modulo (s + (k - 1)) n) (wk_gen n k s) 0 = s /\
+            (forall t : nat,
+             t < n ->
+             (forall j : nat, j < k -> t <> PeanoNat.Nat.modulo (s + j) n) ->
+             List.nth t (wk_gen n k s) 0 = t) /\
+            (forall (A : Type) (dflt : A) (x : list A) (t : nat),
+             length x = n ->
+             t < n ->
+             List.nth t (apply_perm dflt (wk_gen n k s) x) dflt = List.nth (wk_fun n k s t) x dflt)) /\
+           closed_flag (p_gens d) = PeanoNat.Nat.eqb k 2.
+Proof. exact @wrapped_k_cycles_documented. Qed.
+Print Assumptions C15_wrapped_k_cycles_documented.
+
+(* wrapped_k_cycles: the constructor succeeds EXACTLY on the documented parameter range (and which error otherwise) *)
+Theorem C15_wrapped_k_cycles_range :
+  forall n k : BinNums.Z,
+         ((exists d : pdef, wrapped_k_cycles n k = Ok d) <->
+          BinInt.Z.le (BinNums.Zpos (BinNums.xO BinNums.xH)) n /\
+          BinInt.Z.le (BinNums.Zpos (BinNums.xO BinNums.xH)) k /\ BinInt.Z.le k n) /\
+         (~
+          (BinInt.Z.le (BinNums.Zpos (BinNums.xO BinNums.xH)) n /\
+           BinInt.Z.le (BinNums.Zpos (BinNums.xO BinNums.xH)) k /\ BinInt.Z.le k n) ->
+          wrapped_k_cycles n k = Err AssertionErr).
+Proof. exact @wrapped_k_cycles_range. Qed.
+Print Assumptions C15_wrapped_k_cycles_range.
+
+(* increasing_k_cycles: GENERAL in all parameters of the documented range - generators (closed form), count, names, name, central state, documented action on sequences / matrix structure, inverse-closed flag as documented *)
+Theorem C15_increasing_k_cycles_documented :
+  forall n k : nat,
+         1 <= k <= n ->
+         exists d : pdef,
+           increasing_k_cycles (BinInt.Z.of_nat n) (BinInt.Z.of_nat k) = Ok d /\
+           p_gens d = List.map (cycle_gen n) (ik_combs n k) /\
+           p_names d =
+           List.map
+             (fun c : list nat =>
+              cat
+                (String.String (Ascii.Ascii false false false true false true false false)
+                   String.EmptyString
+                 :: join
+                      (String.String (Ascii.Ascii false false true true false true false false)
+                         String.EmptyString) (of_nats c)
+                    :: String.String (Ascii.Ascii true false false true false true false false)
+                         String.EmptyString :: nil)) (ik_combs n k) /\
+           p_name d =
+           cat
+             (String.String (Ascii.Ascii true false false true false true true false)
+                (String.String (Ascii.Ascii false true true true false true true false)
+                   (String.String (Ascii.Ascii true true false false false true true false)
+                      (String.String (Ascii.Ascii false true false false true true true false)
+                         (String.String (Ascii.Ascii true false true false false true true false)
+                            (String.String (Ascii.Ascii true false false false false true true false)
+                               (String.String
+                                  (Ascii.Ascii true true false false true true true false)
+                                  (String.String
+                                     (Ascii.Ascii true false false true false true true false)
+                                     (String.String
+                                        (Ascii.Ascii false true true true false true true false)
+                                        (String.String
+                                           (Ascii.Ascii true true true false false true true false)
+                                           (String.String
+                                              (Ascii.Ascii true true true true true false true false)
+                                              (String.String
+                                                 (Ascii.Ascii true true false true false true true
+                                                    false)
+                                                 (String.String
+                                                    (Ascii.Ascii true true true true true false true
+                                                       false)
+                                                    (String.String
+                                                       (Ascii.Ascii true true false false false true
+                                                          true false)
+                                                       (String.String
+                                                          (Ascii.Ascii true false false true true
+                                                             true true false)
+                                                          (String.String
+                                                             (Ascii.Ascii true true false false false
+                                                                true true false)
+                                                             (String.String
+                                                                (Ascii.Ascii false false true true
+                                                                   false true true false)
+                                                                (String.String
+                                                                   (Ascii.Ascii true false true false
+                                                                      false true true false)
+                                                                   (String.String
+                                                                      (Ascii.Ascii true true false
+                                                                        false true true true false)
+                                                                      (String.String
+                                                                        (Ascii.Ascii true false true
+                                                                        true false true false false)
+                                                                        String.EmptyString)))))))))))))))))))
+              :: zs (BinInt.Z.of_nat n)
+                 :: String.String (Ascii.Ascii true false true true false true false false)
+                      String.EmptyString :: zs (BinInt.Z.of_nat k) :: nil) /\
+           p_central d = of_nats (List.seq 0 n) /\
+           (forall c : list nat,
+            List.In c (ik_combs n k) <->
+            length c = k /\ increasing c /\ (forall x : nat, List.In x c -> x < n)) /\
+           length (p_gens d) = binom n k /\
+           length (p_names d) = binom n k /\
+           binom n k * Factorial.fact k * Factorial.fact (n - k) = Factorial.fact n /\
+           List.Forall (PermN n) (p_gens d) /\
+           (forall c : list nat,
+            List.In c (ik_combs n k) ->
+            (forall i : nat,
+             i < k ->
+             List.nth (List.nth i c 0) (cycle_gen n c) 0 =
+             List.nth (PeanoNat.Nat.modulo (i + 1) k) c 0) /\
+            (forall t : nat, t < n -> ~ List.In t c -> List.nth t (cycle_gen n c) 0 = t) /\
+            inverse_perm (cycle_gen n c) = cycle_gen n (List.rev c) /\
+            (forall (A : Type) (dflt : A) (x : list A) (t : nat),
+             length x = n ->
+             t < n ->
+             List.nth t (apply_perm dflt (cycle_gen n c) x) dflt = List.nth (cycle_fun c t) x dflt)) /\
+           closed_flag (p_gens d) = PeanoNat.Nat.leb k 2.
+Proof. exact @increasing_k_cycles_documented. Qed.
+Print Assumptions C15_increasing_k_cycles_documented.
+
+(* increasing_k_cycles: the constructor succeeds EXACTLY on the documented parameter range (and which error otherwise) *)
+Theorem C15_increasing_k_cycles_range :
+  forall n k : BinNums.Z,
+         ((exists d : pdef, increasing_k_cycles n k = Ok d) <->
+          BinInt.Z.le (BinNums.Zpos BinNums.xH) n /\
+          BinInt.Z.le (BinNums.Zpos BinNums.xH) k /\ BinInt.Z.le k n) /\
+         (~
+          (BinInt.Z.le (BinNums.Zpos BinNums.xH) n /\
+           BinInt.Z.le (BinNums.Zpos BinNums.xH) k /\ BinInt.Z.le k n) ->
+          increasing_k_cycles n k = Err AssertionErr).
+Proof. exact @increasing_k_cycles_range. Qed.
+Print Assumptions C15_increasing_k_cycles_range.
+
+(* rapaport_m2: GENERAL in all parameters of the documented range - generators (closed form), count, names, name, central state, documented action on sequences / matrix structure, inverse-closed flag as documented *)
+Theorem C15_rapaport_m2_documented :
+  forall n : nat,
+         2 <= n ->
+         exists d : pdef,
+           rapaport_m2 (BinInt.Z.of_nat n) = Ok d /\
+           p_gens d =
+           transp n 0 1
+           :: disj_gen n 0 (PeanoNat.Nat.div n 2) :: disj_gen n 1 (PeanoNat.Nat.div (n - 1) 2) :: nil /\
+           p_names d =
+           String.String (Ascii.Ascii false false false true false true false false)
+             (String.String (Ascii.Ascii false false false false true true false false)
+                (String.String (Ascii.Ascii false false true true false true false false)
+                   (String.String (Ascii.Ascii true false false false true true false false)
+                      (String.String (Ascii.Ascii true false false true false true false false)
+                         String.EmptyString))))
+           :: String.String (Ascii.Ascii true false true false false false true false)
+                (String.String (Ascii.Ascii false true true false true true true false)
+                   (String.String (Ascii.Ascii true false true false false true true false)
+                      (String.String (Ascii.Ascii false true true true false true true false)
+                         (String.String (Ascii.Ascii false false true false false false true false)
+                            (String.String (Ascii.Ascii true false false true false true true false)
+                               (String.String
+                                  (Ascii.Ascii true true false false true true true false)
+                                  (String.String
+                                     (Ascii.Ascii false true false true false true true false)
+                                     (String.String
+                                        (Ascii.Ascii false false true false true false true false)
+                                        (String.String
+                                           (Ascii.Ascii false true false false true true true false)
+                                           (String.String
+                                              (Ascii.Ascii true false false false false true true
+                                                 false)
+                                              (String.String
+                                                 (Ascii.Ascii false true true true false true true
+                                                    false)
+                                                 (String.String
+                                                    (Ascii.Ascii true true false false true true true
+                                                       false) String.EmptyString))))))))))))
+              :: String.String (Ascii.Ascii true true true true false false true false)
+                   (String.String (Ascii.Ascii false false true false false true true false)
+                      (String.String (Ascii.Ascii false false true false false true true false)
+                         (String.String (Ascii.Ascii false false true false false false true false)
+                            (String.String (Ascii.Ascii true false false true false true true false)
+                               (String.String
+                                  (Ascii.Ascii true true false false true true true false)
+                                  (String.String
+                                     (Ascii.Ascii false true false true false true true false)
+                                     (String.String
+                                        (Ascii.Ascii false false true false true false true false)
+                                        (String.String
+                                           (Ascii.Ascii false true false false true true true false)
+                                           (String.String
+                                              (Ascii.Ascii true false false false false true true
+                                                 false)
+                                              (String.String
+                                                 (Ascii.Ascii false true true true false true true
+                                                    false)
+                                                 (String.String
+                                                    (Ascii.Ascii true true false false true true true
+                                                       false) String.EmptyString))))))))))) :: nil /\
+           p_name d =
+           cat
+             (String.String (Ascii.Ascii false true false false true true true false)
+                (String.String (Ascii.Ascii true false false false false true true false)
+                   (String.String (Ascii.Ascii false false false false true true true false)
+                      (String.String (Ascii.Ascii true false false false false true true false)
+                         (String.String (Ascii.Ascii false false false false true true true false)
+                            (String.String (Ascii.Ascii true true true true false true true false)
+                               (String.String
+                                  (Ascii.Ascii false true false false true true true false)
+                                  (String.String
+                                     (Ascii.Ascii false false true false true true true false)
+                                     (String.String
+                                        (Ascii.Ascii true true true true true false true false)
+                                        (String.String
+                                           (Ascii.Ascii true false true true false true true false)
+                                           (String.String
+                                              (Ascii.Ascii false true false false true true false
+                                                 false)
+                                              (String.String
+                                                 (Ascii.Ascii true false true true false true false
+                                                    false) String.EmptyString)))))))))))
+              :: zs (BinInt.Z.of_nat n) :: nil) /\
+           p_central d = of_nats (List.seq 0 n) /\
+           List.Forall (PermN n) (p_gens d) /\
+           (forall (A : Type) (dflt : A) (x : list A),
+            length x = n ->
+            List.map (fun p : list nat => apply_perm dflt p x) (p_gens d) =
+            swap_at dflt x 0 1
+            :: swap_pairs dflt 0 (PeanoNat.Nat.div n 2) x
+               :: swap_pairs dflt 1 (PeanoNat.Nat.div (n - 1) 2) x :: nil) /\
+           closed_flag (p_gens d) = true.
+Proof. exact @rapaport_m2_documented. Qed.
+Print Assumptions C15_rapaport_m2_documented.
+
+(* rapaport_m2: the constructor succeeds EXACTLY on the documented parameter range (and which error otherwise) *)
+Theorem C15_rapaport_m2_range :
+  forall n : BinNums.Z,
+         ((exists d : pdef, rapaport_m2 n = Ok d) <->
+          BinInt.Z.le (BinNums.Zpos (BinNums.xO BinNums.xH)) n) /\
+         (~ BinInt.Z.le (BinNums.Zpos (BinNums.xO BinNums.xH)) n -> rapaport_m2 n = Err AssertionErr).
+Proof. exact @rapaport_m2_range. Qed.
+Print Assumptions C15_rapaport_m2_range.
+
+(* rapaport_m1: GENERAL in all parameters of the documented range - generators (closed form), count, names, name, central state, documented action on sequences / matrix structure, inverse-closed flag as documented *)
+Theorem C15_rapaport_m1_documented :
+  forall n : nat,
+         2 <= n ->
+         exists d : pdef,
+           rapaport_m1 (BinInt.Z.of_nat n) = Ok d /\
+           p_gens d =
+           List.map (disj_gen n 0) (List.seq 1 (PeanoNat.Nat.div n 2)) ++
+           List.map (disj_gen n 1) (List.seq 1 (PeanoNat.Nat.div (n - 1) 2)) /\
+           p_names d =
+           List.map
+             (fun np : nat =>
+              cat
+                (String.String (Ascii.Ascii true false true true false false true false)
+                   (String.String (Ascii.Ascii true false false false true true false false)
+                      (String.String (Ascii.Ascii true true true true true false true false)
+                         (String.String (Ascii.Ascii false false false false true true false false)
+                            (String.String (Ascii.Ascii true true true true true false true false)
+                               String.EmptyString)))) :: zs (BinInt.Z.of_nat np) :: nil))
+             (List.seq 1 (PeanoNat.Nat.div n 2)) ++
+           List.map
+             (fun np : nat =>
+              cat
+                (String.String (Ascii.Ascii true false true true false false true false)
+                   (String.String (Ascii.Ascii true false false false true true false false)
+                      (String.String (Ascii.Ascii true true true true true false true false)
+                         (String.String (Ascii.Ascii true false false false true true false false)
+                            (String.String (Ascii.Ascii true true true true true false true false)
+                               String.EmptyString)))) :: zs (BinInt.Z.of_nat np) :: nil))
+             (List.seq 1 (PeanoNat.Nat.div (n - 1) 2)) /\
+           p_name d =
+           cat
+             (String.String (Ascii.Ascii false true false false true true true false)
+                (String.String (Ascii.Ascii true false false false false true true false)
+                   (String.String (Ascii.Ascii false false false false true true true false)
+                      (String.String (Ascii.Ascii true false false false false true true false)
+                         (String.String (Ascii.Ascii false false false false true true true false)
+                            (String.String (Ascii.Ascii true true true true false true true false)
+                               (String.String
+                                  (Ascii.Ascii false true false false true true true false)
+                                  (String.String
+                                     (Ascii.Ascii false false true false true true true false)
+                                     (String.String
+                                        (Ascii.Ascii true true true true true false true false)
+                                        (String.String
+                                           (Ascii.Ascii true false true true false true true false)
+                                           (String.String
+                                              (Ascii.Ascii true false false false true true false
+                                                 false)
+                                              (String.String
+                                                 (Ascii.Ascii true false true true false true false
+                                                    false) String.EmptyString)))))))))))
+              :: zs (BinInt.Z.of_nat n) :: nil) /\
+           p_central d = of_nats (List.seq 0 n) /\
+           length (p_gens d) = n - 1 /\
+           length (p_names d) = n - 1 /\
+           List.Forall (PermN n) (p_gens d) /\
+           (forall (A : Type) (dflt : A) (x : list A) (np : nat),
+            length x = n ->
+            (1 <= np <= PeanoNat.Nat.div n 2 ->
+             apply_perm dflt (List.nth (np - 1) (p_gens d) nil) x = swap_pairs dflt 0 np x) /\
+            (1 <= np <= PeanoNat.Nat.div (n - 1) 2 ->
+             apply_perm dflt (List.nth (PeanoNat.Nat.div n 2 + (np - 1)) (p_gens d) nil) x =
+             swap_pairs dflt 1 np x)) /\ closed_flag (p_gens d) = true.
+Proof. exact @rapaport_m1_documented. Qed.
+Print Assumptions C15_rapaport_m1_documented.
+
+(* rapaport_m1: the constructor succeeds EXACTLY on the documented parameter range (and which error otherwise) *)
+Theorem C15_rapaport_m1_range :
+  forall n : BinNums.Z,
+         ((exists d : pdef, rapaport_m1 n = Ok d) <->
+          BinInt.Z.le (BinNums.Zpos (BinNums.xO BinNums.xH)) n) /\
+         (~ BinInt.Z.le (BinNums.Zpos (BinNums.xO BinNums.xH)) n -> rapaport_m1 n = Err IndexErr).
+Proof. exact @rapaport_m1_range. Qed.
+Print Assumptions C15_rapaport_m1_range.
+
+(* koltsov3: GENERAL in all parameters of the documented range - generators (closed form), count, names, name, central state, documented action on sequences / matrix structure, inverse-closed flag as documented *)
+Theorem C15_koltsov3_documented :
+  forall n k : nat,
+         (forall j : nat,
+          k < n ->
+          j < n ->
+          exists d : pdef,
+            koltsov3 (BinInt.Z.of_nat n) (BinNums.Zpos BinNums.xH) (BinInt.Z.of_nat k)
+              (BinInt.Z.sub (BinInt.Z.of_nat j) (BinInt.Z.of_nat k)) = Ok d /\
+            p_gens d =
+            disj_gen n 0 (PeanoNat.Nat.div n 2)
+            :: disj_gen n 1 (PeanoNat.Nat.div (n - 1) 2) :: transp n k j :: nil /\
+            p_names d =
+            String.String (Ascii.Ascii true false false true false false true false)
+              String.EmptyString
+            :: String.String (Ascii.Ascii true true false true false false true false)
+                 String.EmptyString
+               :: String.String (Ascii.Ascii true true false false true false true false)
+                    String.EmptyString :: nil /\
+            p_name d = koltsov_name n k /\
+            p_central d = of_nats (List.seq 0 n) /\
+            List.Forall (PermN n) (p_gens d) /\
+            (forall (A : Type) (dflt : A) (x : list A),
+             length x = n ->
+             List.map (fun p : list nat => apply_perm dflt p x) (p_gens d) =
+             swap_pairs dflt 0 (PeanoNat.Nat.div n 2) x
+             :: swap_pairs dflt 1 (PeanoNat.Nat.div (n - 1) 2) x :: swap_at dflt x k j :: nil) /\
+            (forall p : list nat, List.In p (p_gens d) -> inverse_perm p = p) /\
+            closed_flag (p_gens d) = true) /\
+         (forall dd : BinNums.Z,
+          k + 3 < n ->
+          exists d : pdef,
+            koltsov3 (BinInt.Z.of_nat n) (BinNums.Zpos (BinNums.xO BinNums.xH)) 
+              (BinInt.Z.of_nat k) dd = Ok d /\
+            p_gens d =
+            disj_gen n 0 (PeanoNat.Nat.div n 2)
+            :: disj_gen n 1 (PeanoNat.Nat.div (n - 1) 2) :: gen_rev_segment n k (k + 3) :: nil /\
+            p_names d =
+            String.String (Ascii.Ascii true false false true false false true false)
+              String.EmptyString
+            :: String.String (Ascii.Ascii true true false true false false true false)
+                 String.EmptyString
+               :: String.String (Ascii.Ascii true true false false true false true false)
+                    String.EmptyString :: nil /\
+            p_name d = koltsov_name n k /\
+            p_central d = of_nats (List.seq 0 n) /\
+            List.Forall (PermN n) (p_gens d) /\
+            (forall (A : Type) (dflt : A) (x : list A),
+             length x = n ->
+             List.map (fun p : list nat => apply_perm dflt p x) (p_gens d) =
+             swap_pairs dflt 0 (PeanoNat.Nat.div n 2) x
+             :: swap_pairs dflt 1 (PeanoNat.Nat.div (n - 1) 2) x :: rev_segment k (k + 3) x :: nil) /\
+            (forall p : list nat, List.In p (p_gens d) -> inverse_perm p = p) /\
+            closed_flag (p_gens d) = true).
+Proof. exact @koltsov3_documented. Qed.
+Print Assumptions C15_koltsov3_documented.
+
+(* koltsov3: the constructor succeeds EXACTLY on the documented parameter range (and which error otherwise) *)
+Theorem C15_koltsov3_range :
+  forall n t k d : BinNums.Z,
+         ((exists r : pdef, koltsov3 n t k d = Ok r) <-> koltsov_range n t k d) /\
+         (~ koltsov_range n t k d -> koltsov3 n t k d = Err AssertionErr).
+Proof. exact @koltsov3_range. Qed.
+Print Assumptions C15_koltsov3_range.
+
+(* sheveleva2: GENERAL in all parameters of the documented range - generators (closed form), count, names, name, central state, documented action on sequences / matrix structure, inverse-closed flag as documented *)
+Theorem C15_sheveleva2_documented :
+  forall n k : nat,
+         1 <= k ->
+         k + 3 <= n ->
+         exists d : pdef,
+           sheveleva2 (BinInt.Z.of_nat n) (BinInt.Z.of_nat k) = Ok d /\
+           p_gens d = sh_A n k :: sh_S n k :: nil /\
+           p_names d =
+           String.String (Ascii.Ascii true false false false false false true false)
+             String.EmptyString
+           :: String.String (Ascii.Ascii true true false false true false true false)
+                String.EmptyString :: nil /\
+           p_name d =
+           cat
+             (String.String (Ascii.Ascii true true false false true true true false)
+                (String.String (Ascii.Ascii false false false true false true true false)
+                   (String.String (Ascii.Ascii true false true false false true true false)
+                      (String.String (Ascii.Ascii false true true false true true true false)
+                         (String.String (Ascii.Ascii true false true false false true true false)
+                            (String.String (Ascii.Ascii false false true true false true true false)
+                               (String.String
+                                  (Ascii.Ascii true false true false false true true false)
+                                  (String.String
+                                     (Ascii.Ascii false true true false true true true false)
+                                     (String.String
+                                        (Ascii.Ascii true false false false false true true false)
+                                        (String.String
+                                           (Ascii.Ascii false true false false true true false false)
+                                           (String.String
+                                              (Ascii.Ascii true false true true false true false
+                                                 false)
+                                              (String.String
+                                                 (Ascii.Ascii false true true true false true true
+                                                    false) String.EmptyString)))))))))))
+              :: zs (BinInt.Z.of_nat n)
+                 :: String.String (Ascii.Ascii true false true true false true false false)
+                      (String.String (Ascii.Ascii true true false true false true true false)
+                         String.EmptyString) :: zs (BinInt.Z.of_nat k) :: nil) /\
+           p_central d = of_nats (List.seq 0 n) /\
+           List.Forall (PermN n) (p_gens d) /\
+           inverse_perm (sh_A n k) = sh_A n k /\
+           (forall t : nat,
+            t < n ->
+            List.nth t (sh_A n k) 0 = sh_A_fun n k t /\ List.nth t (sh_S n k) 0 = sh_S_fun n k t) /\
+           (List.nth (k - 1) (sh_S n k) 0 = k /\
+            List.nth k (sh_S n k) 0 = k + 1 /\
+            List.nth (k + 1) (sh_S n k) 0 = k + 2 /\
+            List.nth (k + 2) (sh_S n k) 0 = k - 1 /\
+            (forall t : nat,
+             t < n ->
+             t < k - 1 \/ k + 2 < t ->
+             (List.nth t (sh_S n k) 0 < k - 1 \/ k + 2 < List.nth t (sh_S n k) 0) /\
+             List.nth (List.nth t (sh_S n k) 0) (sh_S n k) 0 = t)) /\
+           (forall (A : Type) (dflt : A) (x : list A) (t : nat),
+            length x = n ->
+            t < n ->
+            List.nth t (apply_perm dflt (sh_A n k) x) dflt = List.nth (sh_A_fun n k t) x dflt /\
+            List.nth t (apply_perm dflt (sh_S n k) x) dflt = List.nth (sh_S_fun n k t) x dflt) /\
+           closed_flag (p_gens d) = false.
+Proof. exact @sheveleva2_documented. Qed.
+Print Assumptions C15_sheveleva2_documented.
+
+(* sheveleva2: the constructor succeeds EXACTLY on the documented parameter range (and which error otherwise) *)
+Theorem C15_sheveleva2_range :
+  forall n k : BinNums.Z,
+         ((exists d : pdef, sheveleva2 n k = Ok d) <->
+          BinInt.Z.le (BinNums.Zpos BinNums.xH) k /\
+          BinInt.Z.le k (BinInt.Z.sub n (BinNums.Zpos (BinNums.xI BinNums.xH)))) /\
+         (~
+          (BinInt.Z.le (BinNums.Zpos BinNums.xH) k /\
+           BinInt.Z.le k (BinInt.Z.sub n (BinNums.Zpos (BinNums.xI BinNums.xH)))) ->
+          sheveleva2 n k = Err AssertionErr).
+Proof. exact @sheveleva2_range. Qed.
+Print Assumptions C15_sheveleva2_range.
+
+(* signed_reversals: GENERAL in all parameters of the documented range - generators (closed form), count, names, name, central state, documented action on sequences / matrix structure, inverse-closed flag as documented *)
+Theorem C15_signed_reversals_documented :
+  forall n : nat,
+         1 <= n ->
+         exists d : pdef,
+           signed_reversals (BinInt.Z.of_nat n) = Ok d /\
+           p_gens d = List.map (fun ij : nat * nat => gen_srev n (fst ij) (snd ij)) (sr_pairs n) /\
+           p_names d =
+           List.map
+             (fun ij : nat * nat =>
+              cat
+                (String.String (Ascii.Ascii false true false false true false true false)
+                   (String.String (Ascii.Ascii true true false true true false true false)
+                      String.EmptyString)
+                 :: zs (BinInt.Z.of_nat (fst ij))
+                    :: String.String (Ascii.Ascii false true true true false true false false)
+                         (String.String (Ascii.Ascii false true true true false true false false)
+                            String.EmptyString)
+                       :: zs (BinInt.Z.of_nat (snd ij))
+                          :: String.String (Ascii.Ascii true false true true true false true false)
+                               String.EmptyString :: nil)) (sr_pairs n) /\
+           p_name d = String.EmptyString /\
+           p_central d = of_nats (List.seq 0 (2 * n)) /\
+           (forall i j : nat, List.In (i, j) (sr_pairs n) <-> i <= j < n) /\
+           2 * length (p_gens d) = n * (n + 1) /\
+           length (p_names d) = length (p_gens d) /\
+           List.Forall (PermN (2 * n)) (p_gens d) /\
+           (forall p : list nat,
+            List.In p (p_gens d) <-> (exists i j : nat, i <= j < n /\ p = gen_srev n i j)) /\
+           (forall i j : nat,
+            i <= j < n ->
+            inverse_perm (gen_srev n i j) = gen_srev n i j /\
+            (forall t : nat,
+             t < 2 * n ->
+             List.nth t (gen_srev n i j) 0 =
+             (if PeanoNat.Nat.ltb t i
+              then t
+              else
+               if PeanoNat.Nat.ltb t (j + 1)
+               then n + i + j - t
+               else
+                if PeanoNat.Nat.ltb t (n + i)
+                then t
+                else if PeanoNat.Nat.ltb t (n + j + 1) then n + i + j - t else t)) /\
+            (forall (A : Type) (dflt : A) (x : list A),
+             length x = 2 * n ->
+             apply_perm dflt (gen_srev n i j) x =
+             List.firstn i x ++
+             List.rev (List.firstn (j + 1 - i) (List.skipn (n + i) x)) ++
+             List.firstn (n - (j + 1)) (List.skipn (j + 1) x) ++
+             List.firstn i (List.skipn n x) ++
+             List.rev (List.firstn (j + 1 - i) (List.skipn i x)) ++ List.skipn (n + j + 1) x) /\
+            (forall (A : Type) (dflt : A) (b t : list A),
+             length b = n ->
+             length t = n ->
+             apply_perm dflt (gen_srev n i j) (b ++ t) =
+             (List.firstn i b ++
+              List.rev (List.firstn (j + 1 - i) (List.skipn i t)) ++ List.skipn (j + 1) b) ++
+             List.firstn i t ++
+             List.rev (List.firstn (j + 1 - i) (List.skipn i b)) ++ List.skipn (j + 1) t)) /\
+           closed_flag (p_gens d) = true.
+Proof. exact @signed_reversals_documented. Qed.
+Print Assumptions C15_signed_reversals_documented.
+
+(* signed_reversals: the constructor succeeds EXACTLY on the documented parameter range (and which error otherwise) *)
+Theorem C15_signed_reversals_range :
+  forall z : BinNums.Z,
+         ((exists d : pdef, signed_reversals z = Ok d) <-> BinInt.Z.le (BinNums.Zpos BinNums.xH) z) /\
+         (~ BinInt.Z.le (BinNums.Zpos BinNums.xH) z -> signed_reversals z = Err AssertionErr).
+Proof. exact @signed_reversals_range. Qed.
+Print Assumptions C15_signed_reversals_range.
+
+(* transposons: GENERAL in all parameters of the documented range - generators (closed form), count, names, name, central state, documented action on sequences / matrix structure, inverse-closed flag as documented *)
+Theorem C15_transposons_documented :
+  forall n : nat,
+         2 <= n ->
+         exists d : pdef,
+           transposons (BinInt.Z.of_nat n) = Ok d /\
+           p_gens d = List.map (fun '(i, j, k) => gen_tpos n i j k) (tp_triples n) /\
+           p_names d =
+           List.map
+             (fun '(i, j, k) =>
+              cat
+                (String.String (Ascii.Ascii false false true false true false true false)
+                   (String.String (Ascii.Ascii true true false true true false true false)
+                      String.EmptyString)
+                 :: zs (BinInt.Z.of_nat i)
+                    :: String.String (Ascii.Ascii false true true true false true false false)
+                         (String.String (Ascii.Ascii false true true true false true false false)
+                            String.EmptyString)
+                       :: zs (BinInt.Z.sub (BinInt.Z.of_nat j) (BinNums.Zpos BinNums.xH))
+                          :: String.String (Ascii.Ascii false false true true false true false false)
+                               String.EmptyString
+                             :: zs (BinInt.Z.of_nat k)
+                                :: String.String
+                                     (Ascii.Ascii true false true true true false true false)
+                                     String.EmptyString :: nil)) (tp_triples n) /\
+           p_name d = String.EmptyString /\
+           p_central d = of_nats (List.seq 0 n) /\
+           (forall i j k : nat, List.In (i, j, k) (tp_triples n) <-> i < j /\ j <= k < n) /\
+           6 * length (p_gens d) = (n + 1) * n * (n - 1) /\
+           length (p_names d) = length (p_gens d) /\
+           List.Forall (PermN n) (p_gens d) /\
+           (forall p : list nat,
+            List.In p (p_gens d) <->
+            (exists i j k : nat, i < j /\ j <= k /\ k < n /\ p = gen_tpos n i j k)) /\
+           (forall i j k : nat,
+            i < j ->
+            j <= k ->
+            k < n ->
+            inverse_perm (gen_tpos n i j k) = gen_tpos n i (i + k + 1 - j) k /\
+            (forall t : nat,
+             t < n ->
+             List.nth t (gen_tpos n i j k) 0 =
+             (if PeanoNat.Nat.ltb t i
+              then t
+              else
+               if PeanoNat.Nat.ltb t (i + (k + 1 - j))
+               then t + (j - i)
+               else if PeanoNat.Nat.ltb t (k + 1) then t - (k + 1 - j) else t)) /\
+            (forall (A : Type) (dflt : A) (x : list A),
+             length x = n ->
+             apply_perm dflt (gen_tpos n i j k) x =
+             List.firstn i x ++
+             List.firstn (k + 1 - j) (List.skipn j x) ++
+             List.firstn (j - i) (List.skipn i x) ++ List.skipn (k + 1) x)) /\
+           closed_flag (p_gens d) = true.
+Proof. exact @transposons_documented. Qed.
+Print Assumptions C15_transposons_documented.
+
+(* transposons: the constructor succeeds EXACTLY on the documented parameter range (and which error otherwise) *)
+Theorem C15_transposons_range :
+  forall z : BinNums.Z,
+         ((exists d : pdef, transposons z = Ok d) <->
+          BinInt.Z.le (BinNums.Zpos (BinNums.xO BinNums.xH)) z) /\
+         (~ BinInt.Z.le (BinNums.Zpos (BinNums.xO BinNums.xH)) z -> transposons z = Err AssertionErr).
+Proof. exact @transposons_range. Qed.
+Print Assumptions C15_transposons_range.
+
+(* block_interchange: GENERAL in all parameters of the documented range - generators (closed form), count, names, name, central state, documented action on sequences / matrix structure, inverse-closed flag as documented *)
+Theorem C15_block_interchange_documented :
+  forall n : nat,
+         2 <= n ->
+         exists d : pdef,
+           block_interchange (BinInt.Z.of_nat n) = Ok d /\
+           p_gens d = List.map (fun '(i, j, k, l) => gen_bi n i j k l) (bi_quads n) /\
+           p_names d =
+           List.map
+             (fun '(i, j, k, l) =>
+              cat
+                (String.String (Ascii.Ascii true false false true false false true false)
+                   (String.String (Ascii.Ascii true true false true true false true false)
+                      String.EmptyString)
+                 :: zs (BinInt.Z.of_nat i)
+                    :: String.String (Ascii.Ascii false true true true false true false false)
+                         (String.String (Ascii.Ascii false true true true false true false false)
+                            String.EmptyString)
+                       :: zs (BinInt.Z.sub (BinInt.Z.of_nat j) (BinNums.Zpos BinNums.xH))
+                          :: String.String (Ascii.Ascii false false true true false true false false)
+                               String.EmptyString
+                             :: zs (BinInt.Z.of_nat k)
+                                :: String.String
+                                     (Ascii.Ascii false true true true false true false false)
+                                     (String.String
+                                        (Ascii.Ascii false true true true false true false false)
+                                        String.EmptyString)
+                                   :: zs (BinInt.Z.sub (BinInt.Z.of_nat l) (BinNums.Zpos BinNums.xH))
+                                      :: String.String
+                                           (Ascii.Ascii true false true true true false true false)
+                                           String.EmptyString :: nil)) (bi_quads n) /\
+           p_name d = String.EmptyString /\
+           p_central d = of_nats (List.seq 0 n) /\
+           (forall i j k l : nat, List.In (i, j, k, l) (bi_quads n) <-> i < j /\ j <= k /\ k < l <= n) /\
+           24 * length (p_gens d) = (n + 2) * (n + 1) * n * (n - 1) /\
+           length (p_names d) = length (p_gens d) /\
+           List.Forall (PermN n) (p_gens d) /\
+           (forall p : list nat,
+            List.In p (p_gens d) <->
+            (exists i j k l : nat, i < j /\ j <= k /\ k < l /\ l <= n /\ p = gen_bi n i j k l)) /\
+           (forall i j k l : nat,
+            i < j ->
+            j <= k ->
+            k < l ->
+            l <= n ->
+            inverse_perm (gen_bi n i j k l) = gen_bi n i (i + l - k) (l - (j - i)) l /\
+            (forall t : nat,
+             t < n ->
+             List.nth t (gen_bi n i j k l) 0 =
+             (if PeanoNat.Nat.ltb t i
+              then t
+              else
+               if PeanoNat.Nat.ltb t (i + (l - k))
+               then t + (k - i)
+               else
+                if PeanoNat.Nat.ltb t (i + (l - j))
+                then t - (i + (l - k)) + j
+                else if PeanoNat.Nat.ltb t l then t - (l - j) else t)) /\
+            (forall (A : Type) (dflt : A) (x : list A),
+             length x = n ->
+             apply_perm dflt (gen_bi n i j k l) x =
+             List.firstn i x ++
+             List.firstn (l - k) (List.skipn k x) ++
+             List.firstn (k - j) (List.skipn j x) ++
+             List.firstn (j - i) (List.skipn i x) ++ List.skipn l x)) /\
+           closed_flag (p_gens d) = true.
+Proof. exact @block_interchange_documented. Qed.
+Print Assumptions C15_block_interchange_documented.
+
+(* block_interchange: the constructor succeeds EXACTLY on the documented parameter range (and which error otherwise) *)
+Theorem C15_block_interchange_range :
+  forall z : BinNums.Z,
+         ((exists d : pdef, block_interchange z = Ok d) <->
+          BinInt.Z.le (BinNums.Zpos (BinNums.xO BinNums.xH)) z) /\
+         (~ BinInt.Z.le (BinNums.Zpos (BinNums.xO BinNums.xH)) z ->
+          block_interchange z = Err AssertionErr).
+Proof. exact @block_interchange_range. Qed.
+Print Assumptions C15_block_interchange_range.
+
+(* all_cycles: GENERAL in all parameters of the documented range - generators (closed form), count, names, name, central state, documented action on sequences / matrix structure, inverse-closed flag as documented *)
+Theorem C15_all_cycles_documented :
+  forall n : nat,
+         2 <= n ->
+         exists d : pdef,
+           all_cycles (BinInt.Z.of_nat n) = Ok d /\
+           p_gens d = List.map (cycle_gen n) (ac_cycles n) /\
+           p_names d =
+           List.map
+             (fun i : nat =>
+              cat
+                (String.String (Ascii.Ascii true true false false false true true false)
+                   (String.String (Ascii.Ascii true false false true true true true false)
+                      (String.String (Ascii.Ascii true true false false false true true false)
+                         (String.String (Ascii.Ascii false false true true false true true false)
+                            (String.String (Ascii.Ascii true false true false false true true false)
+                               (String.String (Ascii.Ascii true true true true true false true false)
+                                  String.EmptyString))))) :: zs (BinInt.Z.of_nat i) :: nil))
+             (List.seq 1 (length (ac_cycles n))) /\
+           p_name d =
+           cat
+             (String.String (Ascii.Ascii true false false false false true true false)
+                (String.String (Ascii.Ascii false false true true false true true false)
+                   (String.String (Ascii.Ascii false false true true false true true false)
+                      (String.String (Ascii.Ascii true true true true true false true false)
+                         (String.String (Ascii.Ascii true true false false false true true false)
+                            (String.String (Ascii.Ascii true false false true true true true false)
+                               (String.String
+                                  (Ascii.Ascii true true false false false true true false)
+                                  (String.String
+                                     (Ascii.Ascii false false true true false true true false)
+                                     (String.String
+                                        (Ascii.Ascii true false true false false true true false)
+                                        (String.String
+                                           (Ascii.Ascii true true false false true true true false)
+                                           (String.String
+                                              (Ascii.Ascii true false true true false true false
+                                                 false) String.EmptyString))))))))))
+              :: zs (BinInt.Z.of_nat n) :: nil) /\
+           p_central d = of_nats (List.seq 0 n) /\
+           (forall c : list nat,
+            List.In c (ac_cycles n) <->
+            2 <= length c /\
+            List.NoDup c /\
+            (forall x : nat, List.In x c -> x < n) /\
+            (forall x : nat, List.In x (List.tl c) -> List.hd 0 c < x)) /\
+           length (p_gens d) =
+           List.list_sum
+             (List.map (fun k : nat => binom n k * Factorial.fact (k - 1)) (List.seq 2 (n - 1))) /\
+           length (p_names d) = length (p_gens d) /\
+           List.Forall (PermN n) (p_gens d) /\
+           (forall c : list nat,
+            List.In c (ac_cycles n) ->
+            (forall i : nat,
+             i < length c ->
+             List.nth (List.nth i c 0) (cycle_gen n c) 0 =
+             List.nth (PeanoNat.Nat.modulo (i + 1) (length c)) c 0) /\
+            (forall t : nat, t < n -> ~ List.In t c -> List.nth t (cycle_gen n c) 0 = t) /\
+            inverse_perm (cycle_gen n c) = cycle_gen n (List.hd 0 c :: List.rev (List.tl c)) /\
+            (forall (A : Type) (dflt : A) (x : list A) (t : nat),
+             length x = n ->
+             t < n ->
+             List.nth t (apply_perm dflt (cycle_gen n c) x) dflt = List.nth (cycle_fun c t) x dflt)) /\
+           closed_flag (p_gens d) = true.
+Proof. exact @all_cycles_documented. Qed.
+Print Assumptions C15_all_cycles_documented.
+
+(* all_cycles: the constructor succeeds EXACTLY on the documented parameter range (and which error otherwise) *)
+Theorem C15_all_cycles_range :
+  forall n : BinNums.Z,
+         ((exists d : pdef, all_cycles n = Ok d) <->
+          BinInt.Z.le (BinNums.Zpos (BinNums.xO BinNums.xH)) n) /\
+         (~ BinInt.Z.le (BinNums.Zpos (BinNums.xO BinNums.xH)) n -> all_cycles n = Err AssertionErr).
+Proof. exact @all_cycles_range. Qed.
+Print Assumptions C15_all_cycles_range.
+
+(* sl_root_weyl: GENERAL in all parameters of the documented range - generators (closed form), count, names, name, central state, documented action on sequences / matrix structure, inverse-closed flag as documented *)
+Theorem C15_sl_root_weyl_documented :
+  forall (cand : list (list BinNums.Z) -> list (list BinNums.Z)) (n : nat) (m : BinNums.Z),
+         cand_elem cand ->
+         2 <= n ->
+         valid_modulo m = true ->
+         exists d : mdef,
+           special_linear_root_weyl cand (BinInt.Z.of_nat n) m = Ok d /\
+           m_mats d =
+           E n 0 1 (BinNums.Zpos BinNums.xH)
+           :: E n 0 1 (red m (BinNums.Zneg BinNums.xH)) :: W n m :: Wt n m :: nil /\
+           m_modulo d = m /\
+           m_names d =
+           String.String (Ascii.Ascii true false true false false true true false) String.EmptyString
+           :: String.String (Ascii.Ascii true false true false false true true false)
+                (String.String (Ascii.Ascii true true true false false true false false)
+                   String.EmptyString)
+              :: String.String (Ascii.Ascii true true true false true true true false)
+                   String.EmptyString
+                 :: String.String (Ascii.Ascii true true true false true true true false)
+                      (String.String (Ascii.Ascii true true true false false true false false)
+                         String.EmptyString) :: nil /\
+           m_name d =
+           mname
+             (String.String (Ascii.Ascii true true false false true true true false)
+                (String.String (Ascii.Ascii false false true true false true true false)
+                   (String.String (Ascii.Ascii true true true true true false true false)
+                      (String.String (Ascii.Ascii false true false false true true true false)
+                         (String.String (Ascii.Ascii true true true true false true true false)
+                            (String.String (Ascii.Ascii true true true true false true true false)
+                               (String.String
+                                  (Ascii.Ascii false false true false true true true false)
+                                  (String.String
+                                     (Ascii.Ascii true true true true true false true false)
+                                     (String.String
+                                        (Ascii.Ascii true true true false true true true false)
+                                        (String.String
+                                           (Ascii.Ascii true false true false false true true false)
+                                           (String.String
+                                              (Ascii.Ascii true false false true true true true false)
+                                              (String.String
+                                                 (Ascii.Ascii false false true true false true true
+                                                    false)
+                                                 (String.String
+                                                    (Ascii.Ascii true false true true false true
+                                                       false false) String.EmptyString))))))))))))) n
+             m /\
+           m_central d = List.concat (eye n) /\
+           length (m_mats d) = 4 /\
+           length (m_names d) = 4 /\
+           List.Forall (mat_ok n m) (m_mats d) /\
+           is_inverse_to m n (E n 0 1 (BinNums.Zpos BinNums.xH))
+             (E n 0 1 (red m (BinNums.Zneg BinNums.xH))) = true /\
+           is_inverse_to m n (E n 0 1 (red m (BinNums.Zneg BinNums.xH)))
+             (E n 0 1 (BinNums.Zpos BinNums.xH)) = true /\
+           is_inverse_to m n (W n m) (Wt n m) = true /\
+           is_inverse_to m n (Wt n m) (W n m) = true /\
+           inverse_closed m n (m_mats d) /\ FamiliesRun.m_closed d = true.
+Proof. exact @sl_root_weyl_documented. Qed.
+Print Assumptions C15_sl_root_weyl_documented.
+
+(* sl_root_weyl: the constructor succeeds EXACTLY on the documented parameter range (and which error otherwise) *)
+Theorem C15_sl_root_weyl_range :
+  forall (cand : list (list BinNums.Z) -> list (list BinNums.Z)) (z m : BinNums.Z),
+         cand_elem cand ->
+         ((exists d : mdef, special_linear_root_weyl cand z m = Ok d) <->
+          BinInt.Z.le (BinNums.Zpos (BinNums.xO BinNums.xH)) z /\ valid_modulo m = true) /\
+         (~ (BinInt.Z.le (BinNums.Zpos (BinNums.xO BinNums.xH)) z /\ valid_modulo m = true) ->
+          special_linear_root_weyl cand z m = Err AssertionErr).
+Proof. exact @sl_root_weyl_range. Qed.
+Print Assumptions C15_sl_root_weyl_range.
+
+(* sl_fund_roots: GENERAL in all parameters of the documented range - generators (closed form), count, names, name, central state, documented action on sequences / matrix structure, inverse-closed flag as documented *)
+Theorem C15_sl_fund_roots_documented :
+  forall (cand : list (list BinNums.Z) -> list (list BinNums.Z)) (n : nat) (m : BinNums.Z),
+         cand_elem cand ->
+         2 <= n ->
+         valid_modulo m = true ->
+         exists d : mdef,
+           special_linear_fundamental_roots cand (BinInt.Z.of_nat n) m = Ok d /\
+           m_mats d =
+           List.flat_map
+             (fun k : nat =>
+              E n k (k + 1) (BinNums.Zpos BinNums.xH)
+              :: E n k (k + 1) (red m (BinNums.Zneg BinNums.xH))
+                 :: E n (k + 1) k (BinNums.Zpos BinNums.xH)
+                    :: E n (k + 1) k (red m (BinNums.Zneg BinNums.xH)) :: nil) 
+             (List.seq 0 (n - 1)) /\
+           m_modulo d = m /\
+           m_names d =
+           List.flat_map
+             (fun k : nat =>
+              cat
+                (String.String (Ascii.Ascii true false true false false true true false)
+                   String.EmptyString
+                 :: zs (BinInt.Z.add (BinInt.Z.of_nat k) (BinNums.Zpos BinNums.xH)) :: nil)
+              :: cat
+                   (String.String (Ascii.Ascii true false true false false true true false)
+                      String.EmptyString
+                    :: zs (BinInt.Z.add (BinInt.Z.of_nat k) (BinNums.Zpos BinNums.xH))
+                       :: String.String (Ascii.Ascii true true true false false true false false)
+                            String.EmptyString :: nil)
+                 :: cat
+                      (String.String (Ascii.Ascii false true true false false true true false)
+                         String.EmptyString
+                       :: zs (BinInt.Z.add (BinInt.Z.of_nat k) (BinNums.Zpos BinNums.xH)) :: nil)
+                    :: cat
+                         (String.String (Ascii.Ascii false true true false false true true false)
+                            String.EmptyString
+                          :: zs (BinInt.Z.add (BinInt.Z.of_nat k) (BinNums.Zpos BinNums.xH))
+                             :: String.String
+                                  (Ascii.Ascii true true true false false true false false)
+                                  String.EmptyString :: nil) :: nil) (List.seq 0 (n - 1)) /\
+           m_name d =
+           mname
+             (String.String (Ascii.Ascii true true false false true true true false)
+                (String.String (Ascii.Ascii false false true true false true true false)
+                   (String.String (Ascii.Ascii true true true true true false true false)
+                      (String.String (Ascii.Ascii false true true false false true true false)
+                         (String.String (Ascii.Ascii true false true false true true true false)
+                            (String.String (Ascii.Ascii false true true true false true true false)
+                               (String.String
+                                  (Ascii.Ascii false false true false false true true false)
+                                  (String.String
+                                     (Ascii.Ascii true true true true true false true false)
+                                     (String.String
+                                        (Ascii.Ascii false true false false true true true false)
+                                        (String.String
+                                           (Ascii.Ascii true true true true false true true false)
+                                           (String.String
+                                              (Ascii.Ascii true true true true false true true false)
+                                              (String.String
+                                                 (Ascii.Ascii false false true false true true true
+                                                    false)
+                                                 (String.String
+                                                    (Ascii.Ascii true true false false true true true
+                                                       false)
+                                                    (String.String
+                                                       (Ascii.Ascii true false true true false true
+                                                          false false) String.EmptyString))))))))))))))
+             n m /\
+           m_central d = List.concat (eye n) /\
+           length (m_mats d) = 4 * (n - 1) /\
+           length (m_names d) = 4 * (n - 1) /\
+           List.Forall (mat_ok n m) (m_mats d) /\
+           (forall k : nat,
+            k < n - 1 ->
+            List.nth (4 * k) (m_mats d) nil = E n k (k + 1) (BinNums.Zpos BinNums.xH) /\
+            List.nth (4 * k + 1) (m_mats d) nil = E n k (k + 1) (red m (BinNums.Zneg BinNums.xH)) /\
+            List.nth (4 * k + 2) (m_mats d) nil = E n (k + 1) k (BinNums.Zpos BinNums.xH) /\
+            List.nth (4 * k + 3) (m_mats d) nil = E n (k + 1) k (red m (BinNums.Zneg BinNums.xH)) /\
+            is_inverse_to m n (List.nth (4 * k) (m_mats d) nil) (List.nth (4 * k + 1) (m_mats d) nil) =
+            true /\
+            is_inverse_to m n (List.nth (4 * k + 1) (m_mats d) nil) (List.nth (4 * k) (m_mats d) nil) =
+            true /\
+            is_inverse_to m n (List.nth (4 * k + 2) (m_mats d) nil)
+              (List.nth (4 * k + 3) (m_mats d) nil) = true /\
+            is_inverse_to m n (List.nth (4 * k + 3) (m_mats d) nil)
+              (List.nth (4 * k + 2) (m_mats d) nil) = true) /\
+           inverse_closed m n (m_mats d) /\ FamiliesRun.m_closed d = true.
+Proof. exact @sl_fund_roots_documented. Qed.
+Print Assumptions C15_sl_fund_roots_documented.
+
+(* sl_fund_roots: the constructor succeeds EXACTLY on the documented parameter range (and which error otherwise) *)
+Theorem C15_sl_fund_roots_range :
+  forall (cand : list (list BinNums.Z) -> list (list BinNums.Z)) (z m : BinNums.Z),
+         cand_elem cand ->
+         ((exists d : mdef, special_linear_fundamental_roots cand z m = Ok d) <->
+          BinInt.Z.le (BinNums.Zpos (BinNums.xO BinNums.xH)) z /\ valid_modulo m = true) /\
+         (~ (BinInt.Z.le (BinNums.Zpos (BinNums.xO BinNums.xH)) z /\ valid_modulo m = true) ->
+          special_linear_fundamental_roots cand z m = Err AssertionErr).
+Proof. exact @sl_fund_roots_range. Qed.
+Print Assumptions C15_sl_fund_roots_range.
+
+(* heisenberg: GENERAL in all parameters of the documented range - generators (closed form), count, names, name, central state, documented action on sequences / matrix structure, inverse-closed flag as documented *)
+Theorem C15_heisenberg_documented :
+  forall (cand : list (list BinNums.Z) -> list (list BinNums.Z)) (n : nat) 
+           (m : BinNums.Z) (b : bool),
+         cand_elem cand ->
+         3 <= n ->
+         valid_modulo m = true ->
+         exists d : mdef,
+           heisenberg cand (BinInt.Z.of_nat n) m b = Ok d /\
+           m_mats d = heis_gens n ++ (if heis_added m b then heis_invs n m else nil) /\
+           m_modulo d = m /\
+           m_names d = heis_names n ++ (if heis_added m b then primed (heis_names n) else nil) /\
+           m_name d =
+           (if heis_added m b
+            then
+             cat
+               (mname
+                  (String.String (Ascii.Ascii false false false true false true true false)
+                     (String.String (Ascii.Ascii true false true false false true true false)
+                        (String.String (Ascii.Ascii true false false true false true true false)
+                           (String.String (Ascii.Ascii true true false false true true true false)
+                              (String.String
+                                 (Ascii.Ascii true false true false false true true false)
+                                 (String.String
+                                    (Ascii.Ascii false true true true false true true false)
+                                    (String.String
+                                       (Ascii.Ascii false true false false false true true false)
+                                       (String.String
+                                          (Ascii.Ascii true false true false false true true false)
+                                          (String.String
+                                             (Ascii.Ascii false true false false true true true false)
+                                             (String.String
+                                                (Ascii.Ascii true true true false false true true
+                                                   false)
+                                                (String.String
+                                                   (Ascii.Ascii true false true true false true false
+                                                      false) String.EmptyString))))))))))) n m
+                :: String.String (Ascii.Ascii true false true true false true false false)
+                     (String.String (Ascii.Ascii true false false true false true true false)
+                        (String.String (Ascii.Ascii true true false false false true true false)
+                           String.EmptyString)) :: nil)
+            else
+             mname
+               (String.String (Ascii.Ascii false false false true false true true false)
+                  (String.String (Ascii.Ascii true false true false false true true false)
+                     (String.String (Ascii.Ascii true false false true false true true false)
+                        (String.String (Ascii.Ascii true true false false true true true false)
+                           (String.String (Ascii.Ascii true false true false false true true false)
+                              (String.String (Ascii.Ascii false true true true false true true false)
+                                 (String.String
+                                    (Ascii.Ascii false true false false false true true false)
+                                    (String.String
+                                       (Ascii.Ascii true false true false false true true false)
+                                       (String.String
+                                          (Ascii.Ascii false true false false true true true false)
+                                          (String.String
+                                             (Ascii.Ascii true true true false false true true false)
+                                             (String.String
+                                                (Ascii.Ascii true false true true false true false
+                                                   false) String.EmptyString))))))))))) n m) /\
+           m_central d = List.concat (eye n) /\
+           length (m_mats d) = (if heis_added m b then 4 else 2) * (n - 2) /\
+           length (m_names d) = (if heis_added m b then 4 else 2) * (n - 2) /\
+           List.Forall (mat_ok n m) (m_mats d) /\
+           (forall i : nat,
+            1 <= i <= n - 2 ->
+            List.nth (i - 1) (m_mats d) nil = E n 0 i (BinNums.Zpos BinNums.xH) /\
+            List.nth (n - 2 + (i - 1)) (m_mats d) nil = E n i (n - 1) (BinNums.Zpos BinNums.xH) /\
+            (heis_added m b = true ->
+             List.nth (2 * (n - 2) + (i - 1)) (m_mats d) nil =
+             E n 0 i (red m (BinNums.Zneg BinNums.xH)) /\
+             List.nth (3 * (n - 2) + (i - 1)) (m_mats d) nil =
+             E n i (n - 1) (red m (BinNums.Zneg BinNums.xH))) /\
+            is_inverse_to m n (E n 0 i (BinNums.Zpos BinNums.xH))
+              (E n 0 i (red m (BinNums.Zneg BinNums.xH))) = true /\
+            is_inverse_to m n (E n 0 i (red m (BinNums.Zneg BinNums.xH)))
+              (E n 0 i (BinNums.Zpos BinNums.xH)) = true /\
+            is_inverse_to m n (E n i (n - 1) (BinNums.Zpos BinNums.xH))
+              (E n i (n - 1) (red m (BinNums.Zneg BinNums.xH))) = true /\
+            is_inverse_to m n (E n i (n - 1) (red m (BinNums.Zneg BinNums.xH)))
+              (E n i (n - 1) (BinNums.Zpos BinNums.xH)) = true) /\
+           FamiliesRun.m_closed d = (b || BinInt.Z.eqb m (BinNums.Zpos (BinNums.xO BinNums.xH)))%bool /\
+           (FamiliesRun.m_closed d = true -> inverse_closed m n (m_mats d)).
+Proof. exact @heisenberg_documented. Qed.
+Print Assumptions C15_heisenberg_documented.
+
+(* heisenberg: the constructor succeeds EXACTLY on the documented parameter range (and which error otherwise) *)
+Theorem C15_heisenberg_range :
+  forall (cand : list (list BinNums.Z) -> list (list BinNums.Z)) (z m : BinNums.Z) (b : bool),
+         cand_elem cand ->
+         ((exists d : mdef, heisenberg cand z m b = Ok d) <->
+          BinInt.Z.le (BinNums.Zpos (BinNums.xI BinNums.xH)) z /\ valid_modulo m = true) /\
+         (~ (BinInt.Z.le (BinNums.Zpos (BinNums.xI BinNums.xH)) z /\ valid_modulo m = true) ->
+          heisenberg cand z m b = Err AssertionErr).
+Proof. exact @heisenberg_range. Qed.
+Print Assumptions C15_heisenberg_range.
+
+(* the acceptance check of the matrix families holds for EVERY call (the unbounded version of C15_matrix_families_ok_bounded) *)
+Theorem C15_matrix_families_ok_all :
+  forall c : FamiliesRun.mcall, mcall_ok c = true.
+Proof. exact @matrix_families_ok_all. Qed.
+Print Assumptions C15_matrix_families_ok_all.
